@@ -2,7 +2,7 @@
 import ast
 import z3
 from .values import *
-from .engine import HObj, HList, HDict, key_of, Frame
+from .engine import HObj, HList, HSeqList, HDict, key_of, Frame
 from . import builtins_ as B
 from .exprs import _conc_int
 
@@ -16,6 +16,16 @@ class BuiltinMixin:
             return self.call_opq_method(f.bound, name[4:], args, kw, node)
         if name == 'object.__init__':
             return NONE
+        if name.startswith('uf:'):
+            return self.apply_spec_uf(name[3:], args)
+        if name == 'stubfn':
+            # an arbitrary callable of the environment: may change the declared locations, may raise anything
+            c = self.cur_contract or {}
+            for loc in c.get('stub_havoc', []):
+                self.havoc_location(loc, dict(self.st.frames[0].env), c)
+            if self.st.oracle.choose(2) == 1:
+                raise PyRaise('StubException', f.name)
+            return SV('opq', self.sym('stub_result', OPQ))
         if name.startswith('refmethod:'):
             key = name[len('refmethod:'):]
             c = self.contracts[key]
@@ -29,6 +39,59 @@ class BuiltinMixin:
         if h is None:
             raise Unsupported(f'builtin {name}')
         return h(args, kw, node)
+
+    SORTS = {'int': INT, 'bool': BOOL, 'bytes': SEQ, 'str': SEQ, 'opq': OPQ, 'seq': SEQ, 'ref': INT}
+
+    def to_sort(self, v, kind):
+        if kind == 'int':
+            return self.as_int(v)
+        if kind == 'bool':
+            return self.truth(v)
+        if kind in ('bytes', 'str'):
+            return self.as_seq(v)
+        if kind == 'seq':
+            return self.list_as_seq(v) if v.k in ('list', 'seq') else self.as_seq(v)
+        if kind == 'ref':
+            return v.t if v.k == 'ref' else z3.IntVal(-v.t)     # concrete objects: negative ids (disjoint from symbolic refs >= 0 by convention)
+        return self.as_opq(v)
+
+    def apply_spec_uf(self, name, args):
+        """uninterpreted specification function declared by a contracts module (SPEC_UFS)"""
+        argk, resk = self.spec_ufs[name]
+        if name == 'concat_enc':
+            return SV('bytes', self.concat_enc(self.as_int(args[0]), self.to_sort(args[1], 'seq')))
+        if isinstance(resk, str) and resk.startswith('concat:'):
+            return SV('bytes', self.concat_uf(name, resk[7:], self.to_sort(args[0], 'seq')))
+        f = self.ufunc(name, *[self.SORTS[k] for k in argk], self.SORTS[resk])
+        t = f(*[self.to_sort(a, k) for a, k in zip(args, argk)])
+        return {'int': VI, 'bool': VB}.get(resk, lambda x: SV(resk if resk != 'opq' else 'opq', x))(t)
+
+    def concat_enc(self, code, seq):
+        """concatenation of enc_value(code, x) over the elements x of seq: recursive specification function, unfolded structurally
+        (empty / unit / concatenation); atoms stay uninterpreted"""
+        seq = z3.simplify(seq)
+        k = seq.decl().kind() if z3.is_app(seq) else None
+        enc = self.ufunc('enc_value', INT, OPQ, SEQ)
+        if k == z3.Z3_OP_SEQ_EMPTY:
+            return z3.Empty(SEQ)
+        if k == z3.Z3_OP_SEQ_UNIT:
+            return enc(code, self.ufunc('of_ref', INT, OPQ)(seq.arg(0)))
+        if k == z3.Z3_OP_SEQ_CONCAT:
+            return z3.Concat(*[self.concat_enc(code, c) for c in seq.children()])
+        return self.ufunc('concat_enc', INT, SEQ, SEQ)(code, seq)
+
+    def concat_uf(self, name, elem_uf, seq):
+        """concatenation of elem_uf(x) (bytes of one element) over the elements of seq; unfolded structurally"""
+        seq = z3.simplify(seq)
+        k = seq.decl().kind() if z3.is_app(seq) else None
+        f = self.ufunc(elem_uf, INT, SEQ)
+        if k == z3.Z3_OP_SEQ_EMPTY:
+            return z3.Empty(SEQ)
+        if k == z3.Z3_OP_SEQ_UNIT:
+            return f(seq.arg(0))
+        if k == z3.Z3_OP_SEQ_CONCAT:
+            return z3.Concat(*[self.concat_uf(name, elem_uf, c) for c in seq.children()])
+        return self.ufunc(name, SEQ, SEQ)(seq)
 
     def call_opq_method(self, recv, name, args, kw, node):
         h = getattr(self, 'opq_methods', {}).get(name)
@@ -44,7 +107,10 @@ class BuiltinMixin:
         if a.k == 'tuple':
             return VI(len(a.t))
         if a.k == 'list':
-            return VI(len(self.st.heap[a.t].items))
+            h = self.st.heap[a.t]
+            if isinstance(h, HSeqList):
+                return VI(z3.Length(h.seq))
+            return VI(len(h.items))
         if a.k == 'dict':
             return VI(len(self.st.heap[a.t].d))
         if a.k == 'const':
@@ -376,6 +442,12 @@ class BuiltinMixin:
         k = recv.k
         if k == 'list':
             h = self.st.heap[recv.t]
+            if isinstance(h, HSeqList):
+                if name == 'append':
+                    e = args[0]
+                    h.seq = z3.Concat(h.seq, z3.Unit(e.t if e.k == 'ref' else self.as_int(e)))
+                    return NONE
+                raise Unsupported(f'list.{name} on a list of symbolic length')
             if name == 'append':
                 h.items.append(args[0])
                 return NONE
@@ -403,6 +475,8 @@ class BuiltinMixin:
             if name == 'keys':
                 return SV('const', B.Items([self.unkey(kk) for kk in h.d]))
             if name == 'get':
+                if args[0].k == 'enumv':
+                    args = [self.concrete_member(args[0])] + list(args[1:])
                 kk = key_of(args[0])
                 if kk in h.d:
                     return h.d[kk]
